@@ -114,7 +114,25 @@ Proof.
   apply (h_rng _ _ _ _ H p c Hp). exact E.
 Qed.
 
-Check C14_text. Check C14_text_lines. Check C14_text_recover. Check C14_document. Check C14_document_round_trip. Check C14_document_entries.
+(* ... and "lines up with the input": for every input document the reader accepts (ps participants, cs courses as read) and every hard-feasible
+   assignment of that instance, the array of the output document has exactly one entry per participant of the input, each null or an index
+   into the input's course list *)
+Theorem C14_document_input : forall data ps cs K a q,
+  SimpleRead.simple_read data = Json.ROk (ps, cs) ->
+  HardOK_K (map SimpleValid.to_course cs) (map SimpleValid.to_part ps) K a ->
+  exists l, Json.get "assignment" (WriteDoc.simple_doc a q) = Some (Json.JArr l) /\ List.length l = List.length ps /\
+            Forall (fun j => j = Json.JNull \/ exists c, c < List.length cs /\ j = Json.JInt (BinInt.Z.of_nat c)) l.
+Proof.
+  intros data ps cs K a q _ H. exists (map WriteDoc.enc_entry a). split; [reflexivity|]. split.
+  - rewrite map_length. rewrite (h_len _ _ _ _ H). unfold np. apply map_length.
+  - apply Forall_forall. intros j Hj. apply in_map_iff in Hj. destruct Hj as (o & <- & Ho). destruct o as [c|]; [right|left; reflexivity].
+    exists c. split; [|reflexivity]. apply In_nth with (d := None) in Ho. destruct Ho as (p & Hp & Hn).
+    assert (Hc : c < nc (map SimpleValid.to_course cs)).
+    { apply (h_rng _ _ _ _ H p c); [rewrite <- (h_len _ _ _ _ H); exact Hp|exact Hn]. }
+    unfold nc in Hc. rewrite map_length in Hc. exact Hc.
+Qed.
+
+Check C14_text. Check C14_text_lines. Check C14_text_recover. Check C14_document. Check C14_document_input. Check C14_document_round_trip. Check C14_document_entries.
 Check C14_input_round_trip. Check C14_courses. Check C14_partition. Check C14_once. Check C14_flags. Check C14_count. Check C14_array.
 Print Assumptions C14_partition.
 Print Assumptions C14_once.
@@ -128,3 +146,4 @@ Print Assumptions C14_text_recover.
 Print Assumptions C14_document.
 Print Assumptions C14_document_round_trip.
 Print Assumptions C14_document_entries.
+Print Assumptions C14_document_input.
